@@ -2403,11 +2403,25 @@ func (g *IG) inLoop(n int, hdr *ssa.BasicBlock) bool {
 	if len(hs) == 0 {
 		return false
 	}
-	from := g.Reach(hs, nil, nil)
+	// (only through the loop's own blocks and what is spliced into them: going
+	// round an enclosing loop does not put a node into an inner one)
+	_, body := loopOf(hdr)
+	outside := func(k int) bool {
+		in := g.Ins[k]
+		if in == nil || in.Block() == nil {
+			return false
+		}
+		b := in.Block()
+		return b.Parent() == hdr.Parent() && !body[b]
+	}
+	if outside(n) {
+		return false
+	}
+	from := g.Reach(hs, nil, outside)
 	if !from[n] {
 		return false
 	}
-	to := g.Reach(g.Succ[n], nil, nil)
+	to := g.Reach(g.Succ[n], nil, outside)
 	for _, h := range hs {
 		if to[h] {
 			return true
@@ -2513,4 +2527,28 @@ func (g *IG) extractAt(ex *ssa.Extract, at int) ssa.Value {
 		return nil
 	}
 	return res
+}
+
+// loopBypass: node n lies in a loop; returns a path that goes once round that
+// loop (from the loop test into the body and back to the test) without passing
+// n, or nil when every iteration passes n. ok is false when n is not in a loop
+// of the analysed function.
+func (g *IG) loopBypass(n int) (path []int, ok bool) {
+	ls := g.loopsAround(n)
+	if len(ls) == 0 {
+		return nil, false
+	}
+	hdr := ls[0]
+	_, body := loopOf(hdr)
+	var starts []int
+	for _, sb := range hdr.Succs {
+		if body[sb] && sb != hdr {
+			if k, okF := g.First[sb]; okF {
+				starts = append(starts, k)
+			}
+		}
+	}
+	same := func(k int) bool { return g.Ins[k] != nil && g.Ins[k] == g.Ins[n] }
+	inHdr := func(k int) bool { return g.Ins[k] != nil && g.Ins[k].Block() == hdr }
+	return g.Path(starts, nil, same, inHdr), true
 }
